@@ -122,25 +122,25 @@ Proof.
   cbn [kv map]. f_equal. apply IH. exact Hm.
 Qed.
 
-Definition loop_result (r : outcome serr (list vinfo * Z * Z)) : outcome serr (Z * list (Z * vinfo) * Z) :=
+Definition loop_result (r : outcome serr (list vinfo * Z * Z)) : outcome serr (list (Z * vinfo) * Z * Z) :=
   match r with
-  | Ok (m, tot, lw) => Ok (lw, kv m, tot)
+  | Ok (m, tot, lw) => Ok (kv m, tot, lw)
   | Err e => Err e
   | Panic p => Panic p
   end.
 
 Lemma new_loop_fold : forall chk vs m tot lw,
   0 <= lw <= tot -> tot < U64 ->
-  fold_m (fun '(lw0, gm, tot0) v =>
+  fold_m (fun '(gm, tot0, lw0) v =>
             if negb (bt_contains Z.eqb gm (vkey v)) then
               if 0 <? vweight v then
                 let* t1 := ok_or (u64_checked_add tot0 (vweight v)) EOverflow in
                 let tot1 := t1 in
                 let* lw1 := (if vleader v then let* t2 := u64_add chk lw0 (vweight v) in let lw2 := t2 in Ok lw2 else Ok lw0) in
                 let gm1 := bt_insert Z.ltb Z.eqb gm (vkey v) v in
-                Ok (lw1, gm1, tot1)
+                Ok (gm1, tot1, lw1)
               else Err EZeroWeight
-            else Err EDuplicateKey) vs (lw, kv m, tot)
+            else Err EDuplicateKey) vs (kv m, tot, lw)
   = loop_result (new_loop vs m tot lw).
 Proof.
   intros chk vs. induction vs as [|v vs IH]; intros m tot lw Hlw Htot; [reflexivity|].
